@@ -1,0 +1,15 @@
+//go:build verif
+
+package phase1
+
+// VerifPickHook, when set, answers the random node choice of the non-deterministic greedy cycle breaker:
+// it receives the number of candidates and returns the index to pick. It makes the time-seeded RNG
+// an enumerable, replayable choice point for the verification harness.
+var VerifPickHook func(n int) (int, bool)
+
+func verifPick(n int, random bool) (int, bool) {
+	if !random || VerifPickHook == nil {
+		return 0, false
+	}
+	return VerifPickHook(n)
+}
